@@ -40,6 +40,7 @@ pub const K_SPLIT: u8 = 3;
 pub const K_KILL: u8 = 4;
 pub const K_CASFAIL: u8 = 5;
 pub const K_CHOOSE: u8 = 6;
+pub const K_POST: u8 = 7;
 
 pub fn kind_name(k: u8) -> &'static str {
     match k {
@@ -49,6 +50,7 @@ pub fn kind_name(k: u8) -> &'static str {
         K_KILL => "kill",
         K_CASFAIL => "casfail",
         K_CHOOSE => "choose",
+        K_POST => "post-yield",
         _ => "?",
     }
 }
@@ -77,6 +79,9 @@ pub struct RunCfg {
     pub split_prob: f64,
     pub kill_prob: f64,
     pub max_kills: u32,
+    /// probability of a context switch right *after* an atomic operation executed, i.e. between the
+    /// operation and the plain code that follows it (reader preempted between validating load and copy)
+    pub post_yield_prob: f64,
     pub strategy: Strategy,
     pub step_cap: u64,
     pub spin_limit: u32,
@@ -93,6 +98,7 @@ impl Default for RunCfg {
             split_prob: 0.0,
             kill_prob: 0.0,
             max_kills: 0,
+            post_yield_prob: 0.0,
             strategy: Strategy::Random { sticky: 0.5 },
             step_cap: 20_000,
             spin_limit: 48,
@@ -682,6 +688,39 @@ pub fn yield_point(site: u64) {
     }
 }
 
+/// Optional scheduling point after an operation executed (default: none).
+fn post_yield(site: u64) {
+    let me = me();
+    let mut g = lock();
+    let s = g.as_mut().unwrap();
+    if s.finished.is_some() {
+        return;
+    }
+    if s.cfg.post_yield_prob <= 0.0 {
+        return;
+    }
+    let cands: Vec<usize> = (0..s.threads.len()).filter(|&i| i != me && s.runnable(i)).collect();
+    if cands.is_empty() {
+        return;
+    }
+    let c = s.decide(K_POST, |s| {
+        if s.rng_sched.f64() < s.cfg.post_yield_prob {
+            cands[s.rng_sched.below(cands.len() as u64) as usize] as u32 + 1
+        } else {
+            0
+        }
+    });
+    if c == 0 {
+        return;
+    }
+    let next = (c - 1) as usize;
+    if !cands.contains(&next) {
+        return;
+    }
+    s.sched_sig = fnv(fnv(fnv(s.sched_sig, 0x50), site), next as u64);
+    switch_from(g, me, next);
+}
+
 #[inline]
 fn is_acq(o: Ordering) -> bool {
     matches!(o, Ordering::Acquire | Ordering::AcqRel | Ordering::SeqCst)
@@ -893,6 +932,8 @@ pub fn atomic_op(addr: usize, width: usize, read_real: &dyn Fn() -> u64, op: Op,
             }
         }
     };
+    drop(g);
+    post_yield(site as u64);
     res
 }
 
